@@ -25,7 +25,7 @@ META = dict(
     note="trusted: long double arithmetic of the harness, the header-only templates are compiled into the harness from /repo/src (build variant named in HARNESSES); fork()ed zygote for the pristine-process reference; tolerance 1e-12 (reconstruction relative to |m|_F, unitarity) on every path; the looser DESIGN class for the closed-form 3x3 solver is retired since /repo ef70766 removed its last use",
     design_ref="3/C12")
 
-HARNESSES = [(("la", "clang", ["la.cpp"]), {"link_lib": False})]
+HARNESSES = [(("la", "clang", ["la.cpp"]), {"link_lib": False}), (("la_users", "plain", ["la_users.cpp"]), {})]
 
 SCALES3 = [1.0, 1e6, 1e-6]
 # (set, scales) per tier.  Complex-symmetric input (Takagi via SVD) is not instantiated by the
@@ -49,7 +49,9 @@ REQUIRED = ["fs_svd_rc/r/2x2", "fs_svd/c/3x3", "fs_diagonalize_symmetric/r/4x4",
             "fs_diagonalize_hermitian/r/3x3", "fs_diagonalize_hermitian/c/2x2", "fs_diagonalize_hermitian/c/3x3",
             "svd/r/2x2", "svd/c/3x3", "reorder_svd/r/2x2", "reorder_svd/c/3x3", "diagonalize_hermitian/r/2x2",
             "diagonalize_hermitian/r/4x4", "diagonalize_symmetric_r/r/4x4", "reorder_diagonalize_symmetric/r/4x4",
-            "fs_diagonalize_symmetric/c/4x4", "eigen_utils/r/2x2"]
+            "fs_diagonalize_symmetric/c/4x4", "eigen_utils/r/2x2",
+            "move_goldstone_to/r/2x2", "move_goldstone_to/r/3x3", "move_goldstone_to/r/4x4",
+            "move_goldstone_to/c/2x2", "move_goldstone_to/c/3x3", "move_goldstone_to/c/4x4"]
 NSHARD = 16
 # sets on which the full and the values-only result of the model instantiations are also compared bitwise with the
 # same call made as the first library call of a pristine process (one fork per comparison)
@@ -107,6 +109,53 @@ def _fmt_matrix(f):
     return "[" + ", ".join(rows) + "]"
 
 
+def users_block(ctx):
+    """the users of the decompositions: every stored (mass, mixing) pair reconstructs its own mass matrix"""
+    import glob
+    exe = build.harness(*HARNESSES[1][0], **HARNESSES[1][1])
+    bases = [os.path.join(build.REPO, "input", "example.gm2")] + \
+        sorted(glob.glob(os.path.join(build.REPO, "test", "test_points", "BM*_2L_resummed.in"))) + \
+        sorted(glob.glob(os.path.join(build.REPO, "test", "test_points", "P*_2L_resummed*.in")))
+    tbs = ["nan", "2", "50"] if ctx.quick else ["nan", "1", "2", "10", "50", "1000"]
+    lines = ["%s %d %d %d %s" % (f, a, b, c, tb) for f in bases for a in (1, -1) for b in (1, -1) for c in (1, -1) for tb in tbs]
+    inputs = ["thdm %d %d\n" % (sh, NSHARD) for sh in range(NSHARD)] + ["mssm %d\n%s\n" % (len(lines), "\n".join(lines))]
+
+    def one(inp):
+        p = subprocess.run([exe], input=inp, stdout=subprocess.PIPE, stderr=subprocess.PIPE, text=True, timeout=3000)
+        if p.returncode != 0:
+            raise InfraError("la_users harness exit %d: %s" % (p.returncode, p.stdout[-300:] + p.stderr[-300:]))
+        return p.stdout
+    agg, fails = {}, []
+    with cf.ThreadPoolExecutor(min(16, os.cpu_count() or 4)) as ex:
+        for out in ex.map(one, inputs):
+            for ln in out.split("\n"):
+                tk = ln.split()
+                if not tk:
+                    continue
+                if tk[0] == "UGRP":
+                    d = dict(t.split("=", 1) for t in tk[2:])
+                    a = agg.setdefault(tk[1], dict(cases=0, fails=0, rec=0.0, uni=0.0))
+                    a["cases"] += int(d["n"]); a["fails"] += int(d["fails"])
+                    a["rec"] = max(a["rec"], float(d["rec"])); a["uni"] = max(a["uni"], float(d["uni"]))
+                elif tk[0] == "UFAIL":
+                    fails.append((tk[1], tk[2], float(tk[3]), " ".join(tk[4:])))
+                elif tk[0] == "ERR":
+                    raise InfraError("la_users harness: " + ln)
+    for need in ("THDM_mass_eigenstates:Fd", "THDM_mass_eigenstates:Fu", "THDM_mass_eigenstates:Fe", "MSSMNoFV:Cha", "MSSMNoFV:Chi", "MSSMNoFV:Sm"):
+        if agg.get(need, {}).get("cases", 0) == 0:
+            raise InfraError("users block: %s was not exercised" % need)
+    for gname, kind, val, case in sorted(fails):
+        ctx.fail("users:%s:%s" % (gname, kind), "%s: stored (mass, mixing) pair does not satisfy its contract with its own mass matrix: %s = %.3e [%s; %d such case(s)]"
+                 % (gname, kind, val, case, agg[gname]["fails"]), {"users": True, "group": gname, "kind": kind, "case": case})
+    n = 0
+    for gname, a in sorted(agg.items()):
+        n += a["cases"]
+        ctx.nontrivial(("users", gname))
+    ctx.evals(n)
+    ctx.note("users_of_the_decompositions", {k: dict(cases=v["cases"], failed_checks=v["fails"], worst_reconstruction=float("%.3g" % v["rec"]),
+                                                    worst_unitarity=float("%.3g" % v["uni"])) for k, v in sorted(agg.items())})
+
+
 def run(ctx):
     exe = _exe()
     plan = QUICK if ctx.quick else THOROUGH
@@ -151,6 +200,7 @@ def run(ctx):
                  % (f["kind"], _fmt_matrix(f), f["set"], f["code"], float.fromhex(f["scale"]), f["kind"], f["value"],
                     total_fk.get((f["group"], f["kind"]), 0)),
                  {"set": f["set"], "code": f["code"], "scale": f["scale"], "group": f["group"], "kind": f["kind"]})
+    users_block(ctx)
     ndec = 0
     for g, a in sorted(agg.items()):
         ndec += a["n"]
@@ -159,7 +209,7 @@ def run(ctx):
     ctx.evals(ndec)
     nseq = sum(a["seq"] for a in agg.values()); nfresh = sum(a["fresh"] for a in agg.values())
     for g in REQUIRED:
-        if g != "eigen_utils/r/2x2" and agg[g]["seq"] == 0:
+        if g != "eigen_utils/r/2x2" and not g.startswith("move_goldstone_to") and agg[g]["seq"] == 0:
             raise InfraError("no re-ordered call sequences were run for " + g)
     for g in FRESH_GROUPS:
         if agg[g]["fresh"] == 0:
@@ -195,6 +245,20 @@ def run(ctx):
 
 def replay(ctx, path):
     d = json.load(open(path))["data"]
+    if d.get("users"):
+        class R:
+            quick = not os.path.basename(path).startswith("thorough")
+
+            def __init__(self): self.f = []
+            def fail(self, k, what, data=None): self.f.append((k, what))
+            def evals(self, n=1): pass
+            def nontrivial(self, k): pass
+            def note(self, k, v): pass
+        r = R(); users_block(r)
+        hit = [w for k, w in r.f if k == "users:%s:%s" % (d["group"], d["kind"])]
+        if hit:
+            print("replay:", hit[0]); print("VIOLATION property=C12 replay=%s" % path); return 1
+        print("replay: holds now (users:%s:%s)" % (d["group"], d["kind"])); return 0
     exe = _exe()
     p = subprocess.run([exe], input="one %s %s %d fresh\n" % (d["set"], d["scale"], d["code"]),
                        stdout=subprocess.PIPE, text=True, timeout=600)
